@@ -31,6 +31,10 @@ func typeKey(t types.Type) string {
 }
 
 func mk(kind, name string, idx int, typ types.Type, args ...*Term) *Term {
+	// x.F read through a copy of *p and through p itself are the same place: one canonical form, field F (p)
+	if kind == "field" && len(args) == 1 && args[0] != nil && args[0].Kind == "deref" && args[0].Name == "" && args[0].Idx == 0 && len(args[0].Args) == 1 && args[0].Args[0] != nil && args[0].Args[0].Kind == "call" {
+		args = []*Term{args[0].Args[0]}
+	}
 	var sb strings.Builder
 	sb.WriteString(kind)
 	sb.WriteByte(':')
